@@ -213,9 +213,13 @@ static bool nparty_once(std::vector<std::pair<std::string, std::string> > &pendi
 			// the deviating party runs the honest code; its broadcasts are rewritten by value: the share revealed to answer the complaint
 			// of a tampered recipient, and the opening a_i of its coin share
 			Deviation d = devs.at(i); JareckiLysyanskayaRVSS *rv = edcf.rvss; mpz_srcptr q = G.q;
-			tamper_broadcast()->decide = [d, rv, i, q](mpz_srcptr pl, mpz_ptr rep) -> int {
+			size_t nn = n;
+			tamper_broadcast()->decide = [d, rv, i, q, nn](mpz_srcptr pl, mpz_ptr rep) -> int {
+				// complaint ignored: the announcement `who` (the victim's index) becomes the end marker n; the receivers stop reading there
+				if (d.answer == 3 && mpz_sgn(rv->C_ik[i][0]) != 0) { std::set<size_t> vs(d.wrong); vs.insert(d.drop.begin(), d.drop.end());
+					for (size_t v : vs) if (mpz_cmp_ui(pl, v) == 0) { mpz_set_ui(rep, nn); return 1; } }
 				if (mpz_sgn(pl) == 0) return 0;
-				if (d.answer) { std::set<size_t> vs(d.wrong); vs.insert(d.drop.begin(), d.drop.end());
+				if (d.answer == 1 || d.answer == 2) { std::set<size_t> vs(d.wrong); vs.insert(d.drop.begin(), d.drop.end());
 					for (size_t v : vs) if (mpz_cmp(pl, rv->alpha_ij[i][v]) == 0) { if (d.answer == 2) return 2; mpz_add_ui(rep, pl, 1); mpz_mod(rep, rep, q); return 1; } }
 				if (d.opening && mpz_cmp(pl, rv->a_i) == 0) { if (d.opening == 2) return 2; mpz_add_ui(rep, pl, 1); mpz_mod(rep, rep, q); return 1; }
 				return 0; };
@@ -237,6 +241,10 @@ static bool nparty_once(std::vector<std::pair<std::string, std::string> > &pendi
 		for (size_t j = 0; j < n; j++) fprintf(stderr, "  P%zu sh%zu=%s cm%zu=%s\n", i, j, res_get(FR.text[i], "sh" + std::to_string(j)).c_str(), j, res_get(FR.text[i], "cm" + std::to_string(j)).c_str());
 		fprintf(stderr, "  P%zu a=%s coin=%s\n", i, res_get(FR.text[i], "a").c_str(), res_get(FR.text[i], "coin").c_str()); }
 	auto finish = [&]() {
+		// a dealer that ignores a complaint stays in Qual and its victim keeps the wrong share (finding nparty-unanswered-complaint):
+		// the consequences in such a scripted run are reported under that key
+		bool ignored = false; for (auto &d : devs) if (d.second.answer == 3) ignored = true;
+		if (ignored) for (auto &f : fails) if (f.first == "nparty-coins-differ" || f.first == "nparty-stale-share") f.first = "nparty-unanswered-complaint";
 		if (fails.empty()) { for (auto &r : recs) { fputs(r.c_str(), stdout); } return true; }
 		if (FR.timing_trouble()) { fprintf(stderr, "c17: nparty inconclusive (time-out expired in the run; %s): %s\n", fails[0].first.c_str(), ctx.c_str()); pending = fails; return false; }
 		for (auto &f : fails) verif::propfail(f.first, f.second);
@@ -327,7 +335,7 @@ static void nparty(const Grp &G, size_t n, size_t t, const std::vector<bool> &fa
 	// a wrong coin value (not a failure to complete, not a disagreement) that repeats in every attempt is reported even though
 	// time-outs expired in all of them
 	for (auto &f : all.back()) {
-		bool every = (f.first == "nparty-coin-not-sum" || f.first == "nparty-stale-share" || f.first == "nparty-coin-out-of-range");
+		bool every = (f.first == "nparty-coin-not-sum" || f.first == "nparty-stale-share" || f.first == "nparty-coin-out-of-range" || f.first == "nparty-unanswered-complaint");
 		for (auto &a : all) { bool has = false; for (auto &g : a) if (g.first == f.first) has = true; every = every && has; }
 		if (every) verif::propfail(f.first, f.second + " [repeated in 3 attempts, all with expired time-outs]");
 	}
@@ -454,7 +462,8 @@ int main(int argc, char **argv) {
 			size_t d4 = gen().below(4), d5 = gen().below(5);
 			cfgs = { {2, 0, {}, -1, {}, false, 0, 0}, {3, 1, {}, -1, {}, false, 0, 0}, {3, 1, {(size_t)gen().below(3)}, -1, {}, false, 0, 0}, {5, 2, {1, 3}, -1, {}, false, 0, 0},
 				{4, 1, {}, (long)d4, subset(4, 1, d4), false, 0, 1},        // wrong share to one victim, correct answer, mismatching opening -> reconstruction
-				{5, 2, {}, (long)d5, subset(5, 2, d5), false, 1, 0} };      // wrong share to two victims, incorrect answer -> disqualified
+				{5, 2, {}, (long)d5, subset(5, 2, d5), false, 1, 0},        // wrong share to two victims, incorrect answer -> disqualified
+				{4, 1, {}, (long)d4, subset(4, 1, d4), false, 3, 1} };      // wrong share to one victim, complaint ignored, mismatching opening (known finding)
 		} else {
 			for (size_t n = 2; n <= 7; n++) { size_t t = (n - 1) / 2;
 				cfgs.push_back({n, t, {}, -1, {}, false, 0, 0});
@@ -466,7 +475,8 @@ int main(int argc, char **argv) {
 					size_t d = gen().below(n);
 					cfgs.push_back({n, t, {}, (long)d, subset(n, k, d), false, 0, 1});       // the stale-share pattern
 					cfgs.push_back({n, t, {}, (long)d, subset(n, k, d), false, 0, 0});       // correct answer, correct opening
-					cfgs.push_back({n, t, {}, (long)d, subset(n, k, d), false, 1, (int)gen().below(2)}); }
+					cfgs.push_back({n, t, {}, (long)d, subset(n, k, d), false, 1, (int)gen().below(2)});
+					cfgs.push_back({n, t, {}, (long)d, subset(n, k, d), false, 3, (int)gen().below(2)}); }     // complaints ignored
 				size_t d = gen().below(n);
 				cfgs.push_back({n, t, {}, (long)d, {}, false, 0, 1});                         // mismatching opening only
 				if (n <= 5) {
